@@ -900,4 +900,826 @@ theorem sinv_notify {s : ASet} {d : Nat} {alive : Bool} {snap : Option Int} (hs 
             · refine Or.inr ⟨h, s.entries.length, ?_⟩
               simp [join, upd]
 
+
+def snapSl (s : ASet) (snapAll : Nat → Option Int) (d : Nat) : Int :=
+  match snapAll d with
+  | some raw => raw + s.offs d
+  | none => 0
+
+theorem resnap_spec (s : ASet) (snapAll : Nat → Option Int) :
+    ∀ (es : List Entry) (lat : Nat → Option Int),
+      (resnap s snapAll es lat).1.map (·.d) = es.map (·.d) ∧
+      (∀ e' ∈ (resnap s snapAll es lat).1, e'.sl = snapSl s snapAll e'.d) ∧
+      (∀ x, (resnap s snapAll es lat).2 x =
+        if x ∈ es.map (·.d) then (match snapAll x with | some raw => some raw | none => lat x) else lat x) := by
+  intro es
+  induction es with
+  | nil => intro lat; simp [resnap]
+  | cons e es ih =>
+    intro lat
+    cases hsn : snapAll e.d with
+    | some raw =>
+      obtain ⟨h1, h2, h3⟩ := ih (upd lat e.d (some raw))
+      simp only [resnap, hsn]
+      refine ⟨by simp [h1], ?_, ?_⟩
+      · intro e' he'
+        simp only [List.mem_cons] at he'
+        rcases he' with he' | he'
+        · subst he'; simp [snapSl, hsn]
+        · exact h2 e' he'
+      · intro x
+        rw [h3 x]
+        simp only [List.map_cons, List.mem_cons, upd]
+        by_cases hx : x = e.d
+        · subst hx; simp [hsn]
+        · simp [hx]
+    | none =>
+      obtain ⟨h1, h2, h3⟩ := ih lat
+      simp only [resnap, hsn]
+      refine ⟨by simp [h1], ?_, ?_⟩
+      · intro e' he'
+        simp only [List.mem_cons] at he'
+        rcases he' with he' | he'
+        · subst he'; simp [snapSl, hsn]
+        · exact h2 e' he'
+      · intro x
+        rw [h3 x]
+        simp only [List.map_cons, List.mem_cons]
+        by_cases hx : x = e.d
+        · subst hx; simp [hsn]
+        · simp [hx]
+
+/-- hypothesis on `SetSelectionPolicy`: the snapshots read for the alive members stay below the sentinel -/
+def SetPolicyOk (s : ASet) (snapAll : Nat → Option Int) : Prop :=
+  ∀ e ∈ s.entries, ∀ r, snapAll e.d = some r → r + s.offs e.d + s.tol < hour
+
+theorem sinv_setPolicy {s : ASet} {p : Policy} {snapAll : Nat → Option Int} (hs : SInv s)
+    (ok : SetPolicyOk s snapAll) : SInv (setPolicy s p snapAll) := by
+  unfold setPolicy
+  by_cases hp : s.policy = p
+  · rw [if_pos hp]; exact hs
+  · rw [if_neg hp]
+    simp only
+    cases hm : p.isMin
+    · simp only [Bool.not_false, if_true]
+      refine sinv_of_nonmin ?_ hm rfl rfl
+      refine ⟨idxInv_congr hs.idx rfl rfl rfl rfl, hs.tol0, hs.slBound, ?_⟩
+      intro h; simp only at h; rw [hm] at h; cases h
+    · simp only [Bool.not_true, Bool.false_eq_true, if_false]
+      obtain ⟨h1, h2, h3⟩ := resnap_spec { s with policy := p, lat := fun _ => none, minL := hour, minD := none }
+        snapAll s.entries (fun _ => none)
+      apply sinv_calcMin_none _ hm rfl
+      refine ⟨idxInv_congr hs.idx rfl rfl (by simp only [ASet.ds]; exact h1) rfl, hs.tol0, ?_, ?_⟩
+      · intro e' he'
+        simp only at he'
+        have hsl := h2 e' he'
+        have hdm : e'.d ∈ s.entries.map (·.d) := by
+          rw [← h1]; exact List.mem_map.mpr ⟨e', he', rfl⟩
+        obtain ⟨e, he, hed⟩ := List.mem_map.mp hdm
+        rw [hsl]
+        unfold snapSl
+        cases hsn : snapAll e'.d with
+        | none => exact hour_pos
+        | some r =>
+          simp only
+          have := ok e he r (by rw [hed]; exact hsn)
+          have := hs.tol0
+          rw [hed] at *
+          omega
+      · intro _ e' he'
+        simp only at he' ⊢
+        have hsl := h2 e' he'
+        have hdm : e'.d ∈ s.entries.map (·.d) := by
+          rw [← h1]; exact List.mem_map.mpr ⟨e', he', rfl⟩
+        rw [hsl]
+        simp only [expSl, snapSl, h3 e'.d, hdm, if_true]
+        cases snapAll e'.d <;> rfl
+
+
+theorem calcMin_frame (s : ASet) :
+    (calcMin s).n = s.n ∧ (calcMin s).tol = s.tol ∧ (calcMin s).offs = s.offs ∧
+    (calcMin s).policy = s.policy ∧ (calcMin s).idx = s.idx ∧ (calcMin s).lat = s.lat ∧
+    (calcMin s).entries = s.entries ∧ (calcMin s).panicked = s.panicked := by
+  unfold calcMin
+  dsimp only
+  repeat' split
+  all_goals simp
+
+theorem decide2_frame (s : ASet) (d : Nat) (alive : Bool) (sl bakL : Int) :
+    (decide2 s d alive sl bakL).n = s.n ∧ (decide2 s d alive sl bakL).idx = s.idx ∧
+    (decide2 s d alive sl bakL).entries = s.entries ∧ (decide2 s d alive sl bakL).panicked = s.panicked ∧
+    (decide2 s d alive sl bakL).policy = s.policy ∧ (decide2 s d alive sl bakL).tol = s.tol ∧
+    (decide2 s d alive sl bakL).offs = s.offs ∧ (decide2 s d alive sl bakL).lat = s.lat := by
+  unfold decide2
+  dsimp only
+  split
+  · simp
+  · split
+    · split
+      · split
+        · obtain ⟨a, b, c, e, f, g, h, i⟩ := calcMin_frame { s with minL := sl }
+          simp [a, b, c, e, f, g, h, i]
+        · obtain ⟨a, b, c, e, f, g, h, i⟩ := calcMin_frame { s with minL := sl, minD := none }
+          simp [a, b, c, e, f, g, h, i]
+      · simp
+    · simp
+
+theorem idxInv_phase1 {s : ASet} {d : Nat} (alive : Bool) (snap : Option Int) (h : IdxInv s) (hd : d < s.n) :
+    IdxInv (phase1 s d alive snap).1 ∧ (phase1 s d alive snap).1.n = s.n := by
+  unfold phase1
+  cases alive
+  · simp only [Bool.false_eq_true, if_false]
+    cases hk : s.idx d with
+    | «at» k =>
+      simp only
+      obtain ⟨f1, _⟩ := removeAt_frame0 s d k
+      have hr := idxInv_removeAt s d k h hd hk
+      split
+      · obtain ⟨a, b, c, e, f, g, hh, i⟩ := calcMin_frame (resetBest (removeAt s d k))
+        exact ⟨idxInv_congr hr (by rw [a]; rfl) (by rw [f]; rfl) (by simp only [ASet.ds, hh]; rfl) (by rw [i]; rfl),
+          by rw [a]; exact f1⟩
+      · exact ⟨hr, f1⟩
+    | init => exact ⟨h, rfl⟩
+    | notAlive => exact ⟨h, rfl⟩
+  · simp only [if_true]
+    cases hk : s.idx d with
+    | «at» k => exact ⟨h, rfl⟩
+    | init => exact ⟨idxInv_join s d h hd (by simp [hk]), rfl⟩
+    | notAlive => exact ⟨idxInv_join s d h hd (by simp [hk]), rfl⟩
+
+theorem idxInv_phase2 {s : ASet} {d : Nat} (alive : Bool) (snap : Option Int) (h : IdxInv s) (hd : d < s.n) :
+    IdxInv (phase2 s d alive snap).1 ∧ (phase2 s d alive snap).1.n = s.n := by
+  unfold phase2
+  cases snap with
+  | none =>
+    simp only
+    split
+    · exact ⟨idxInv_congr h rfl rfl rfl rfl, rfl⟩
+    · exact ⟨h, rfl⟩
+  | some raw =>
+    simp only
+    obtain ⟨a, b, c, e, _⟩ := decide2_frame (record s d raw) d alive (raw + s.offs d) s.minL
+    obtain ⟨g1, _⟩ := record_frame s d raw
+    exact ⟨idxInv_congr (idxInv_record raw h hd) a b (by simp only [ASet.ds, c]) e, by rw [a, g1]⟩
+
+theorem idxInv_notify {s : ASet} {d : Nat} (alive : Bool) (snap : Option Int) (h : IdxInv s) (hd : d < s.n) :
+    IdxInv (notify s d alive snap).1 ∧ (notify s d alive snap).1.n = s.n := by
+  unfold notify
+  simp only
+  obtain ⟨h1, n1⟩ := idxInv_phase1 alive (if s.policy.isMin = true then snap else none) h hd
+  obtain ⟨h2, n2⟩ := idxInv_phase2 alive (if s.policy.isMin = true then snap else none) h1 (by rw [n1]; exact hd)
+  exact ⟨h2, by rw [n2, n1]⟩
+
+theorem idxInv_setPolicy {s : ASet} (p : Policy) (snapAll : Nat → Option Int) (h : IdxInv s) :
+    IdxInv (setPolicy s p snapAll) ∧ (setPolicy s p snapAll).n = s.n := by
+  unfold setPolicy
+  split
+  · exact ⟨h, rfl⟩
+  · simp only
+    split
+    · exact ⟨idxInv_congr h rfl rfl rfl rfl, rfl⟩
+    · obtain ⟨h1, _, _⟩ := resnap_spec { s with policy := p, lat := fun _ => none, minL := hour, minD := none }
+        snapAll s.entries (fun _ => none)
+      obtain ⟨a, b, c, e, f, g, hh, i⟩ := calcMin_frame
+        { s with policy := p, lat := (resnap { s with policy := p, lat := fun _ => none, minL := hour, minD := none } snapAll s.entries (fun _ => none)).2,
+                 minL := hour, minD := none,
+                 entries := (resnap { s with policy := p, lat := fun _ => none, minL := hour, minD := none } snapAll s.entries (fun _ => none)).1 }
+      refine ⟨idxInv_congr h (by rw [a]) (by rw [f]) ?_ (by rw [i]), by rw [a]⟩
+      simp only [ASet.ds, hh]
+      exact h1
+
+/-- every `notify` of the history names a member of the set -/
+def HistMem (n : Nat) : List SetEv → Prop
+  | [] => True
+  | .notify d _ _ :: es => d < n ∧ HistMem n es
+  | .setPolicy _ _ :: es => HistMem n es
+
+theorem idxInv_run (h : List SetEv) : ∀ (s : ASet), IdxInv s → HistMem s.n h →
+    IdxInv (runSet s h) ∧ (runSet s h).n = s.n := by
+  induction h with
+  | nil => intro s hs _; exact ⟨hs, rfl⟩
+  | cons e es ih =>
+    intro s hs hm
+    cases e with
+    | notify d a sn =>
+      obtain ⟨hd, hm'⟩ := hm
+      obtain ⟨h1, n1⟩ := idxInv_notify a sn hs hd
+      obtain ⟨h2, n2⟩ := ih (notify s d a sn).1 h1 (by rw [n1]; exact hm')
+      exact ⟨h2, by rw [← n1]; exact n2⟩
+    | setPolicy p sa =>
+      obtain ⟨h1, n1⟩ := idxInv_setPolicy p sa hs
+      obtain ⟨h2, n2⟩ := ih (setPolicy s p sa) h1 (by rw [n1]; exact hm)
+      exact ⟨h2, by rw [← n1]; exact n2⟩
+
+/-- per-event hypotheses of the full invariant -/
+def EvOk (s : ASet) : SetEv → Prop
+  | .notify d _ sn => NotifyOk s d sn
+  | .setPolicy _ sa => SetPolicyOk s sa
+
+def HistOk : ASet → List SetEv → Prop
+  | _, [] => True
+  | s, e :: es => EvOk s e ∧ HistOk (stepSet s e) es
+
+theorem sinv_step {s : ASet} {e : SetEv} (hs : SInv s) (ok : EvOk s e) : SInv (stepSet s e) := by
+  cases e with
+  | notify d a sn => exact sinv_notify hs ok
+  | setPolicy p sa => exact sinv_setPolicy hs ok
+
+theorem sinv_run (h : List SetEv) : ∀ (s : ASet), SInv s → HistOk s h → SInv (runSet s h) := by
+  induction h with
+  | nil => intro s hs _; exact hs
+  | cons e es ih =>
+    intro s hs hok
+    exact ih (stepSet s e) (sinv_step hs hok.1) hok.2
+
+theorem sinv_init (n : Nat) (tol : Int) (offs : Nat → Int) (p : Policy) (ht : 0 ≤ tol) :
+    SInv (ASet.init n tol offs p) := by
+  refine { idx := idxInv_init n tol offs p, tol0 := ht, slBound := ?_, latCons := ?_, nonMin := ?_, nilHour := ?_, nilEmpty := ?_, tolBound := ?_, best := ?_ }
+  all_goals simp [ASet.init]
+
+
+/-! ### GetMinLatency -/
+
+theorem getMin_cases (s : ASet) (excl : Option Nat) :
+    (∃ b, s.minD = some b ∧ excl ≠ some b ∧ getMin s excl = (some b, s.minL)) ∨
+    ((s.minD = none ∨ excl = s.minD) ∧
+      getMin s excl = (if (scanMin s.entries excl).1.isSome then scanMin s.entries excl else (none, hour))) := by
+  unfold getMin
+  cases hD : s.minD with
+  | none => right; simp
+  | some b =>
+    by_cases he : excl = some b
+    · right; simp [he]
+    · left; exact ⟨b, rfl, he, by simp [he]⟩
+
+theorem getMin_some {s : ASet} (hs : SInv s) {excl : Option Nat} {d : Nat} {L : Int}
+    (h : getMin s excl = (some d, L)) : (∃ e ∈ s.entries, e.d = d) ∧ excl ≠ some d := by
+  rcases getMin_cases s excl with ⟨b, hb, hne, hg⟩ | ⟨_, hg⟩
+  · rw [hg] at h
+    have hbd : b = d := by simpa using congrArg (·.1) h
+    subst hbd
+    obtain ⟨e, he, hed, _⟩ := hs.best b hb
+    exact ⟨⟨e, he, hed⟩, hne⟩
+  · rw [hg] at h
+    obtain ⟨_, _, h3, _⟩ := scanMin_spec s.entries excl
+    split at h
+    · have := h3 d (by rw [h])
+      exact ⟨⟨_, this.1, rfl⟩, this.2.1⟩
+    · cases h
+
+theorem getMin_none_iff {s : ASet} (hs : SInv s) (excl : Option Nat) :
+    (getMin s excl).1 = none ↔ ∀ e ∈ s.entries, excl = some e.d := by
+  obtain ⟨_, h2, h3, h4⟩ := scanMin_spec s.entries excl
+  rcases getMin_cases s excl with ⟨b, hb, hne, hg⟩ | ⟨hc, hg⟩
+  · rw [hg]
+    simp only [reduceCtorEq, false_iff]
+    intro hall
+    obtain ⟨e, he, hed, _⟩ := hs.best b hb
+    exact hne (by rw [← hed]; exact hall e he)
+  · rw [hg]
+    constructor
+    · intro hn e he
+      have hsn : (scanMin s.entries excl).1 = none := by
+        cases hq : (scanMin s.entries excl).1 with
+        | none => rfl
+        | some x => simp [hq] at hn
+      apply Classical.byContradiction
+      intro hne
+      have := h4 e he hne
+      have := h2 hsn
+      have := hs.slBound e he
+      omega
+    · intro hall
+      cases hq : (scanMin s.entries excl).1 with
+      | none => simp [hq]
+      | some x =>
+        have := h3 x hq
+        exact absurd (hall _ this.1) this.2.1
+
+/-- the latency returned with the cached best is the best's own sorting latency, unless the best
+is the optimistic "first alive, never measured" choice (then it is `time.Hour`) -/
+theorem getMin_best_latency {s : ASet} (hs : SInv s) {d : Nat} {L : Int}
+    (h : getMin s none = (some d, L)) (hm : s.policy.isMin = true) :
+    ∃ e ∈ s.entries, e.d = d ∧ (e.sl = L ∨ (L = hour ∧ s.lat d = none)) := by
+  rcases getMin_cases s none with ⟨b, hb, _, hg⟩ | ⟨hc, hg⟩
+  · rw [hg] at h
+    have hbd : b = d := by simpa using congrArg (·.1) h
+    have hL : s.minL = L := by simpa using congrArg (·.2) h
+    subst hbd; subst hL
+    exact hs.best b hb
+  · rcases hc with hc | hc
+    · have := hs.nilEmpty hm hc
+      rw [hg, this] at h
+      simp [scanMin] at h
+    · have := hs.nilEmpty hm hc.symm
+      rw [hg, this] at h
+      simp [scanMin] at h
+
+theorem getMin_tolerance {s : ASet} (hs : SInv s) (hm : s.policy.isMin = true) {d : Nat} {L : Int}
+    (h : getMin s none = (some d, L)) :
+    ∀ e ∈ s.entries, s.lat e.d ≠ none → ¬ beats s.tol e.sl L := by
+  rcases getMin_cases s none with ⟨b, hb, _, hg⟩ | ⟨hc, hg⟩
+  · rw [hg] at h
+    have hL : s.minL = L := by simpa using congrArg (·.2) h
+    subst hL
+    exact hs.tolBound hm
+  · have hD : s.minD = none := by rcases hc with hc | hc; exact hc; exact hc.symm
+    have := hs.nilEmpty hm hD
+    rw [hg, this] at h
+    simp [scanMin] at h
+
+/-- with the cached best excluded, the answer is a true minimum over the other alive entries -/
+theorem getMin_excluded_is_min {s : ASet} {b d : Nat} {L : Int} (hD : s.minD = some b)
+    (h : getMin s (some b) = (some d, L)) :
+    (⟨d, L⟩ : Entry) ∈ s.entries ∧ d ≠ b ∧ ∀ e ∈ s.entries, e.d ≠ b → L ≤ e.sl := by
+  obtain ⟨_, _, h3, h4⟩ := scanMin_spec s.entries (some b)
+  rcases getMin_cases s (some b) with ⟨b', hb', hne, _⟩ | ⟨_, hg⟩
+  · rw [hD] at hb'; cases hb'; exact absurd rfl hne
+  · rw [hg] at h
+    split at h
+    · have h1 : (scanMin s.entries (some b)).1 = some d := by rw [h]
+      have h2 : (scanMin s.entries (some b)).2 = L := by rw [h]
+      have := h3 d h1
+      rw [h2] at this
+      refine ⟨this.1, fun hdb => this.2.1 (by rw [hdb]), ?_⟩
+      intro e he hne
+      have := h4 e he (by simp; exact fun h => hne h.symm)
+      rw [h2] at this
+      exact this
+    · cases h
+
+/-! ### GetRandExcluded -/
+
+theorem reservoir_fold (rnd : Nat → Nat) (x : Nat) (es : List Entry) :
+    ∀ (seen : List Entry) (acc : Option Nat × Nat),
+      ((acc.2 = 0 → acc.1 = none ∧ ∀ e ∈ seen, e.d = x) ∧
+       (acc.2 ≠ 0 → ∃ d, acc.1 = some d ∧ d ≠ x ∧ ∃ e ∈ seen, e.d = d)) →
+      let r := es.foldl (reservoirStep rnd x) acc
+      ((r.2 = 0 → r.1 = none ∧ ∀ e ∈ seen ++ es, e.d = x) ∧
+       (r.2 ≠ 0 → ∃ d, r.1 = some d ∧ d ≠ x ∧ ∃ e ∈ seen ++ es, e.d = d)) := by
+  induction es with
+  | nil => intro seen acc h; simpa using h
+  | cons e es ih =>
+    intro seen acc h
+    have hs : seen ++ e :: es = (seen ++ [e]) ++ es := by simp
+    rw [hs, List.foldl_cons]
+    apply ih
+    obtain ⟨h0, h1⟩ := h
+    unfold reservoirStep
+    by_cases hex : e.d = x
+    · rw [if_pos hex]
+      constructor
+      · intro hz
+        obtain ⟨a, b⟩ := h0 hz
+        refine ⟨a, ?_⟩
+        intro e' he'
+        simp at he'
+        rcases he' with he' | he'
+        · exact b e' he'
+        · subst he'; exact hex
+      · intro hz
+        obtain ⟨d, a, b, e', he', c⟩ := h1 hz
+        exact ⟨d, a, b, e', by simp [he'], c⟩
+    · rw [if_neg hex]
+      simp only
+      split
+      · exact ⟨by simp, fun _ => ⟨e.d, rfl, hex, e, by simp, rfl⟩⟩
+      · rename_i hr
+        constructor
+        · simp
+        · intro _
+          by_cases hz : acc.2 = 0
+          · simp [hz] at hr
+            omega
+          · obtain ⟨d, a, b, e', he', c⟩ := h1 hz
+            exact ⟨d, a, b, e', by simp [he'], c⟩
+
+theorem getRand_mem {rnd : Nat → Nat} {s : ASet} {excl : Option Nat} {d : Nat}
+    (h : getRand rnd s excl = some d) : d ∈ randCands s excl := by
+  unfold getRand at h
+  split at h
+  · cases h
+  · cases excl with
+    | none =>
+      simp only at h
+      cases hq : s.entries[rnd s.entries.length % s.entries.length]? with
+      | none => simp [hq] at h
+      | some e =>
+        simp [hq] at h
+        simp only [randCands, List.mem_filter, List.mem_map]
+        exact ⟨⟨e, List.mem_iff_getElem?.mpr ⟨_, hq⟩, h⟩, by simp⟩
+    | some x =>
+      simp only at h
+      have := reservoir_fold rnd x s.entries [] (none, 0) ⟨by simp, by simp⟩
+      simp only [List.nil_append] at this
+      obtain ⟨h0, h1⟩ := this
+      by_cases hz : (s.entries.foldl (reservoirStep rnd x) (none, 0)).2 = 0
+      · rw [(h0 hz).1] at h; cases h
+      · obtain ⟨d', a, b, e, he, c⟩ := h1 hz
+        rw [a] at h; cases h
+        simp only [randCands, List.mem_filter, List.mem_map]
+        exact ⟨⟨e, he, c⟩, by simp; exact fun h => b h.symm⟩
+
+theorem getRand_none_iff (rnd : Nat → Nat) (s : ASet) (excl : Option Nat) :
+    getRand rnd s excl = none ↔ randCands s excl = [] := by
+  unfold getRand
+  by_cases hemp : s.entries = []
+  · simp [hemp, randCands]
+  · have hne : s.entries.isEmpty = false := by simp [hemp]
+    simp only [hne, Bool.false_eq_true, if_false]
+    cases excl with
+    | none =>
+      simp only
+      have hpos : 0 < s.entries.length := List.length_pos_iff.mpr hemp
+      have hlt : rnd s.entries.length % s.entries.length < s.entries.length := Nat.mod_lt _ hpos
+      constructor
+      · intro h
+        rw [List.getElem?_eq_getElem hlt] at h
+        simp at h
+      · intro h
+        simp only [randCands] at h
+        have : s.entries.map (·.d) = [] := by
+          have := List.filter_eq_nil_iff.mp h
+          cases hq : s.entries.map (·.d) with
+          | nil => rfl
+          | cons a l => have := this a (by rw [hq]; simp); simp at this
+        simp at this
+        exact absurd this hemp
+    | some x =>
+      simp only
+      have := reservoir_fold rnd x s.entries [] (none, 0) ⟨by simp, by simp⟩
+      simp only [List.nil_append] at this
+      obtain ⟨h0, h1⟩ := this
+      constructor
+      · intro h
+        by_cases hz : (s.entries.foldl (reservoirStep rnd x) (none, 0)).2 = 0
+        · have := (h0 hz).2
+          simp only [randCands]
+          apply List.filter_eq_nil_iff.mpr
+          intro d hd
+          obtain ⟨e, he, hed⟩ := List.mem_map.mp hd
+          simp [← hed, this e he]
+        · obtain ⟨d', a, _⟩ := h1 hz
+          rw [a] at h; cases h
+      · intro h
+        by_cases hz : (s.entries.foldl (reservoirStep rnd x) (none, 0)).2 = 0
+        · exact (h0 hz).1
+        · obtain ⟨d', a, b, e, he, c⟩ := h1 hz
+          have : d' ∈ randCands s (some x) := by
+            simp only [randCands, List.mem_filter, List.mem_map]
+            exact ⟨⟨e, he, c⟩, by simp; exact fun h => b h.symm⟩
+          rw [h] at this; cases this
+
+theorem mem_randCands (s : ASet) (excl : Option Nat) (d : Nat) :
+    d ∈ randCands s excl ↔ (∃ e ∈ s.entries, e.d = d) ∧ excl ≠ some d := by
+  simp [randCands]
+
+
+theorem firstPick_some {α} {pick : NetType → Option α} {ts : List NetType} {ty : NetType} {x : α}
+    (h : firstPick pick ts = some (ty, x)) : ty ∈ ts ∧ pick ty = some x := by
+  induction ts with
+  | nil => simp [firstPick] at h
+  | cons t ts ih =>
+    unfold firstPick at h
+    cases hp : pick t with
+    | some y =>
+      rw [hp] at h
+      simp only [Option.some.injEq, Prod.mk.injEq] at h
+      obtain ⟨h1, h2⟩ := h
+      subst h1; subst h2
+      exact ⟨by simp, hp⟩
+    | none =>
+      rw [hp] at h
+      have := ih h
+      exact ⟨by simp [this.1], this.2⟩
+
+theorem firstPick_none {α} {pick : NetType → Option α} {ts : List NetType} :
+    firstPick pick ts = none ↔ ∀ ty ∈ ts, pick ty = none := by
+  induction ts with
+  | nil => simp [firstPick]
+  | cons t ts ih =>
+    unfold firstPick
+    cases hp : pick t with
+    | some y => simp [hp]
+    | none => simp [hp, ih]
+
+/-- the group invariant: the six sets exist exactly for the policies that need them, each
+satisfies the set invariant and runs the group's policy -/
+structure GInv (g : Group) : Prop where
+  hasSets : g.hasSets = needsAlive g.policy
+  sets : g.hasSets = true → ∀ t, SInv (g.sets t) ∧ (g.sets t).policy = g.policy
+
+/-- what `_select` answers under the three kinds of policy -/
+theorem select1_fixed (rnd : Nat → Nat → Nat) (g : Group) (t : NetType) (fi : Int) (excl : Option Nat) :
+    select1 rnd g t .fixed fi excl =
+      if g.n = 0 then .error .noDialers
+      else if fi < 0 ∨ (g.n : Int) ≤ fi then .error .outOfRange
+      else .ok ⟨fi.toNat, 0, (preferAlt g fi.toNat t).index⟩ := by
+  unfold select1; rfl
+
+theorem select1_random (rnd : Nat → Nat → Nat) (g : Group) (t : NetType) (fi : Int) (excl : Option Nat) :
+    select1 rnd g t .random fi excl =
+      if g.n = 0 then .error .noDialers
+      else match firstPick (fun ty => getRand (rnd ty.index) (g.sets ty.index) excl) (chain t .random) with
+        | some (ty, d) => .ok ⟨d, 0, (preferAlt g d ty).index⟩
+        | none => .error .noAlive := by
+  unfold select1; rfl
+
+theorem select1_min (rnd : Nat → Nat → Nat) (g : Group) (t : NetType) (p : Policy) (hp : p.isMin = true)
+    (fi : Int) (excl : Option Nat) :
+    select1 rnd g t p fi excl =
+      if g.n = 0 then .error .noDialers
+      else match firstPick (fun ty =>
+          let r := getMin (g.sets ty.index) excl
+          r.1.map (fun d => (d, r.2))) (chain t p) with
+        | some (ty, (d, l)) => .ok ⟨d, l, (preferAlt g d ty).index⟩
+        | none => .error .noAlive := by
+  cases p <;> simp [Policy.isMin] at hp <;> (unfold select1; rfl)
+
+/-- `_select` under an alive-state policy: an answer comes from the first consulted domain that
+has a non-excluded alive member; "no alive" exactly when no consulted domain has one. -/
+theorem select1_spec {rnd : Nat → Nat → Nat} {g : Group} {t : NetType} {p : Policy} {fi : Int}
+    {excl : Option Nat} (hp : p ≠ .fixed) (hs : ∀ ty, SInv (g.sets ty)) :
+    (∀ x, select1 rnd g t p fi excl = .ok x →
+      ∃ ty ∈ chain t p, (∃ e ∈ (g.sets ty.index).entries, e.d = x.d) ∧ excl ≠ some x.d ∧
+        (p.isMin = true → getMin (g.sets ty.index) excl = (some x.d, x.lat))) ∧
+    (select1 rnd g t p fi excl = .error .noAlive ↔
+      g.n ≠ 0 ∧ ∀ ty ∈ chain t p, ∀ e ∈ (g.sets ty.index).entries, excl = some e.d) ∧
+    (∀ e, select1 rnd g t p fi excl = .error e → e = .noAlive ∨ (e = .noDialers ∧ g.n = 0)) := by
+  by_cases hr : p = .random
+  · subst hr
+    rw [select1_random]
+    by_cases hn : g.n = 0
+    · simp [hn]
+    · simp only [hn, if_false]
+      cases hf : firstPick (fun ty => getRand (rnd ty.index) (g.sets ty.index) excl) (chain t .random) with
+      | some r =>
+        obtain ⟨ty, d⟩ := r
+        obtain ⟨hty, hpick⟩ := firstPick_some hf
+        have hmem := (mem_randCands _ _ _).mp (getRand_mem hpick)
+        refine ⟨?_, ?_, ?_⟩
+        · intro x hx
+          simp only [Except.ok.injEq] at hx
+          subst hx
+          exact ⟨ty, hty, hmem.1, hmem.2, by simp [Policy.isMin]⟩
+        · simp only [reduceCtorEq, ne_eq, false_iff, not_and]
+          intro _ hall
+          obtain ⟨e, he, hed⟩ := hmem.1
+          exact hmem.2 (by rw [← hed]; exact hall ty hty e he)
+        · intro e he; cases he
+      | none =>
+        have hall := firstPick_none.mp hf
+        refine ⟨(by intro x hx; cases hx), ?_, (by intro e he; cases he; exact Or.inl rfl)⟩
+        simp only [true_iff]
+        refine ⟨hn, ?_⟩
+        intro ty hty e he
+        have := (getRand_none_iff _ _ _).mp (hall ty hty)
+        apply Classical.byContradiction
+        intro hne
+        have : e.d ∈ randCands (g.sets ty.index) excl := (mem_randCands _ _ _).mpr ⟨⟨e, he, rfl⟩, hne⟩
+        simp_all
+  · have hm : p.isMin = true := by cases p <;> simp_all [Policy.isMin]
+    rw [select1_min rnd g t p hm]
+    by_cases hn : g.n = 0
+    · simp [hn]
+    · simp only [hn, if_false]
+      cases hf : firstPick (fun ty =>
+          let r := getMin (g.sets ty.index) excl
+          r.1.map (fun d => (d, r.2))) (chain t p) with
+      | some r =>
+        obtain ⟨ty, d, l⟩ := r
+        obtain ⟨hty, hpick⟩ := firstPick_some hf
+        simp only at hpick
+        have hgm : getMin (g.sets ty.index) excl = (some d, l) := by
+          cases hq : getMin (g.sets ty.index) excl with
+          | mk a b =>
+            rw [hq] at hpick
+            cases a with
+            | none => simp at hpick
+            | some a => simp at hpick; rw [hpick.1, hpick.2]
+        have hal := getMin_some (hs ty.index) hgm
+        refine ⟨?_, ?_, ?_⟩
+        · intro x hx
+          simp only [Except.ok.injEq] at hx
+          subst hx
+          exact ⟨ty, hty, hal.1, hal.2, fun _ => hgm⟩
+        · simp only [reduceCtorEq, ne_eq, false_iff, not_and]
+          intro _ hall
+          obtain ⟨e, he, hed⟩ := hal.1
+          exact hal.2 (by rw [← hed]; exact hall ty hty e he)
+        · intro e he; cases he
+      | none =>
+        have hall := firstPick_none.mp hf
+        refine ⟨(by intro x hx; cases hx), ?_, (by intro e he; cases he; exact Or.inl rfl)⟩
+        simp only [true_iff]
+        refine ⟨hn, ?_⟩
+        intro ty hty
+        have := hall ty hty
+        simp only [Option.map_eq_none_iff] at this
+        exact (getMin_none_iff (hs ty.index) excl).mp this
+
+
+theorem mem_tried (g : Group) (t : NetType) (strict : Bool) (ty : NetType) :
+    ty ∈ tried g t strict ↔ ty ∈ chain t g.policy ∨ (strict = false ∧ ty ∈ chain t.flip g.policy) := by
+  unfold tried
+  cases strict <;> simp
+
+theorem select_fixed (rnd : Nat → Nat → Nat → Nat) (g : Group) (t : NetType) (strict : Bool)
+    (excl : Option Nat) (hp : g.policy = .fixed) (h0 : 0 ≤ g.fixedIdx) (h1 : g.fixedIdx < g.n) :
+    select rnd g t strict excl = .ok ⟨g.fixedIdx.toNat, 0, (preferAlt g g.fixedIdx.toNat t).index⟩ := by
+  unfold select
+  rw [hp, select1_fixed]
+  have hn : g.n ≠ 0 := by omega
+  have hr : ¬ (g.fixedIdx < 0 ∨ (g.n : Int) ≤ g.fixedIdx) := by omega
+  simp [hn, hr]
+
+/-- the answer of the last resort (`_select` with `fixed(0)` in a one-node group) -/
+theorem select1_lastResort (rnd : Nat → Nat → Nat) (g : Group) (t : NetType) (excl : Option Nat) (hn : g.n = 1) :
+    select1 rnd g t .fixed 0 excl = .ok ⟨0, 0, (preferAlt g 0 t).index⟩ := by
+  rw [select1_fixed]
+  simp [hn]
+
+theorem select_ok {rnd : Nat → Nat → Nat → Nat} {g : Group} {t : NetType} {strict : Bool}
+    {excl : Option Nat} (hp : g.policy ≠ .fixed) (hs : ∀ ty, SInv (g.sets ty)) {x : SelOk}
+    (h : select rnd g t strict excl = .ok x) :
+    (∃ ty ∈ tried g t strict, (∃ e ∈ (g.sets ty.index).entries, e.d = x.d) ∧ excl ≠ some x.d ∧
+      (g.policy.isMin = true → getMin (g.sets ty.index) excl = (some x.d, x.lat))) ∨
+    (strict = true ∧ g.n = 1 ∧ x.d = 0 ∧ x.lat = dialTimeout ∧
+      ∀ ty ∈ chain t g.policy, ∀ e ∈ (g.sets ty.index).entries, excl = some e.d) := by
+  obtain ⟨a1, b1, c1⟩ := select1_spec (rnd := rnd 0) (g := g) (t := t) (fi := g.fixedIdx) (excl := excl) hp hs
+  obtain ⟨a2, b2, c2⟩ := select1_spec (rnd := rnd 1) (g := g) (t := t.flip) (fi := g.fixedIdx) (excl := excl) hp hs
+  unfold select at h
+  cases h1 : select1 (rnd 0) g t g.policy g.fixedIdx excl with
+  | ok r =>
+    rw [h1] at h
+    simp only [Except.ok.injEq] at h
+    subst h
+    obtain ⟨ty, hty, hal⟩ := a1 r h1
+    exact Or.inl ⟨ty, (mem_tried g t strict ty).mpr (Or.inl hty), hal⟩
+  | error e =>
+    rw [h1] at h
+    rcases c1 e h1 with he | ⟨he, hn⟩
+    · subst he
+      simp only at h
+      cases strict
+      · simp only [Bool.not_false, if_true] at h
+        obtain ⟨ty, hty, hal⟩ := a2 x h
+        exact Or.inl ⟨ty, (mem_tried g t false ty).mpr (Or.inr ⟨rfl, hty⟩), hal⟩
+      · simp only [Bool.not_true, Bool.false_eq_true, if_false] at h
+        by_cases hn : g.n = 1
+        · rw [if_pos hn, select1_lastResort _ _ _ _ hn] at h
+          simp only [Except.ok.injEq] at h
+          subst h
+          exact Or.inr ⟨rfl, hn, rfl, rfl, (b1.mp h1).2⟩
+        · rw [if_neg hn] at h; cases h
+    · subst he; simp only at h; cases h
+
+theorem select_noAlive_iff {rnd : Nat → Nat → Nat → Nat} {g : Group} {t : NetType} {strict : Bool}
+    {excl : Option Nat} (hp : g.policy ≠ .fixed) (hs : ∀ ty, SInv (g.sets ty)) :
+    select rnd g t strict excl = .error .noAlive ↔
+      g.n ≠ 0 ∧ ¬ (strict = true ∧ g.n = 1) ∧
+      ∀ ty ∈ tried g t strict, ∀ e ∈ (g.sets ty.index).entries, excl = some e.d := by
+  obtain ⟨a1, b1, c1⟩ := select1_spec (rnd := rnd 0) (g := g) (t := t) (fi := g.fixedIdx) (excl := excl) hp hs
+  obtain ⟨a2, b2, c2⟩ := select1_spec (rnd := rnd 1) (g := g) (t := t.flip) (fi := g.fixedIdx) (excl := excl) hp hs
+  unfold select
+  cases h1 : select1 (rnd 0) g t g.policy g.fixedIdx excl with
+  | ok r =>
+    simp only [reduceCtorEq, false_iff, not_and]
+    intro hn _ hall
+    obtain ⟨ty, hty, ⟨e, he, hed⟩, hne, _⟩ := a1 r h1
+    exact hne (by rw [← hed]; exact hall ty ((mem_tried g t strict ty).mpr (Or.inl hty)) e he)
+  | error e =>
+    rcases c1 e h1 with he | ⟨he, hn⟩
+    · subst he
+      obtain ⟨hn, hall1⟩ := b1.mp h1
+      simp only
+      cases strict
+      · simp only [Bool.not_false, if_true, Bool.false_eq_true, false_and, not_false_eq_true, true_and]
+        rw [b2]
+        constructor
+        · rintro ⟨_, hall2⟩
+          refine ⟨hn, ?_⟩
+          intro ty hty
+          rcases (mem_tried g t false ty).mp hty with h | ⟨_, h⟩
+          · exact hall1 ty h
+          · exact hall2 ty h
+        · rintro ⟨_, hall⟩
+          exact ⟨hn, fun ty hty => hall ty ((mem_tried g t false ty).mpr (Or.inr ⟨rfl, hty⟩))⟩
+      · simp only [Bool.not_true, Bool.false_eq_true, if_false, true_and]
+        by_cases hn1 : g.n = 1
+        · rw [if_pos hn1, select1_lastResort _ _ _ _ hn1]
+          simp [hn1]
+        · rw [if_neg hn1]
+          simp only [true_iff]
+          refine ⟨hn, hn1, ?_⟩
+          intro ty hty
+          rcases (mem_tried g t true ty).mp hty with h | ⟨h, _⟩
+          · exact hall1 ty h
+          · cases h
+    · subst he
+      simp [hn]
+
+/-! ### `select` against the deterministic "all answers" form printed by the driver -/
+
+theorem firstPick_rel {α β} {p1 : NetType → Option α} {p2 : NetType → Option β} (R : α → β → Prop)
+    (hrel : ∀ ty, (p1 ty = none ∧ p2 ty = none) ∨ (∃ a b, p1 ty = some a ∧ p2 ty = some b ∧ R a b))
+    (ts : List NetType) :
+    (firstPick p1 ts = none ∧ firstPick p2 ts = none) ∨
+    (∃ ty a b, firstPick p1 ts = some (ty, a) ∧ firstPick p2 ts = some (ty, b) ∧ R a b) := by
+  induction ts with
+  | nil => left; simp [firstPick]
+  | cons t ts ih =>
+    unfold firstPick
+    rcases hrel t with ⟨h1, h2⟩ | ⟨a, b, h1, h2, hr⟩
+    · rw [h1, h2]; exact ih
+    · rw [h1, h2]; right; exact ⟨t, a, b, rfl, rfl, hr⟩
+
+theorem select1_mem_all (rnd : Nat → Nat → Nat) (g : Group) (t : NetType) (p : Policy) (fi : Int)
+    (excl : Option Nat) :
+    match select1 rnd g t p fi excl with
+    | .ok x => ∃ l, select1All g t p fi excl = .ok l ∧ x ∈ l
+    | .error e => select1All g t p fi excl = .error e := by
+  by_cases hr : p = .random
+  · subst hr
+    rw [select1_random]
+    unfold select1All
+    simp only
+    by_cases hn : g.n = 0
+    · simp [hn]
+    · simp only [hn, if_false]
+      have := firstPick_rel (p1 := fun ty => getRand (rnd ty.index) (g.sets ty.index) excl)
+        (p2 := fun ty => if (randCands (g.sets ty.index) excl).isEmpty then none else some (randCands (g.sets ty.index) excl))
+        (fun d c => d ∈ c) (by
+          intro ty
+          cases hq : getRand (rnd ty.index) (g.sets ty.index) excl with
+          | none =>
+            left
+            have := (getRand_none_iff _ _ _).mp hq
+            simp [this]
+          | some d =>
+            right
+            have hm := getRand_mem hq
+            have hne : (randCands (g.sets ty.index) excl).isEmpty = false := by
+              cases hc : randCands (g.sets ty.index) excl with
+              | nil => rw [hc] at hm; cases hm
+              | cons a l => rfl
+            exact ⟨d, _, rfl, by simp [hne], hm⟩) (chain t .random)
+      rcases this with ⟨h1, h2⟩ | ⟨ty, a, b, h1, h2, hr⟩
+      · rw [h1, h2]
+      · rw [h1, h2]
+        simp only
+        exact ⟨_, rfl, List.mem_map.mpr ⟨a, hr, rfl⟩⟩
+  · have : select1All g t p fi excl = (select1 (fun _ _ => 0) g t p fi excl).map (fun r => [r]) := by
+      cases p <;> simp_all [select1All]
+    rw [this]
+    have hindep : select1 rnd g t p fi excl = select1 (fun _ _ => 0) g t p fi excl := by
+      cases p <;> first | exact absurd rfl hr | rfl
+    rw [hindep]
+    cases select1 (fun _ _ => 0) g t p fi excl with
+    | ok x => exact ⟨[x], rfl, by simp⟩
+    | error e => rfl
+
+theorem select_mem_all (rnd : Nat → Nat → Nat → Nat) (g : Group) (t : NetType) (strict : Bool)
+    (excl : Option Nat) :
+    match select rnd g t strict excl with
+    | .ok x => ∃ l, selectAll g t strict excl = .ok l ∧ x ∈ l
+    | .error e => selectAll g t strict excl = .error e := by
+  have m0 := select1_mem_all (rnd 0) g t g.policy g.fixedIdx excl
+  have m1 := select1_mem_all (rnd 1) g t.flip g.policy g.fixedIdx excl
+  have m2 := select1_mem_all (rnd 1) g t .fixed 0 excl
+  unfold select selectAll
+  cases h0 : select1 (rnd 0) g t g.policy g.fixedIdx excl with
+  | ok x =>
+    rw [h0] at m0
+    obtain ⟨l, hl, hx⟩ := m0
+    rw [hl]
+    exact ⟨l, rfl, hx⟩
+  | error e =>
+    rw [h0] at m0
+    simp only at m0
+    rw [m0]
+    cases e with
+    | noAlive =>
+      simp only
+      cases strict
+      · simp only [Bool.not_false, if_true]
+        exact m1
+      · simp only [Bool.not_true, Bool.false_eq_true, if_false]
+        by_cases hn : g.n = 1
+        · simp only [hn, if_true]
+          cases h2 : select1 (rnd 1) g t .fixed 0 excl with
+          | ok x =>
+            rw [h2] at m2
+            obtain ⟨l, hl, hx⟩ := m2
+            rw [hl]
+            exact ⟨_, rfl, List.mem_map.mpr ⟨x, hx, rfl⟩⟩
+          | error e =>
+            rw [h2] at m2
+            simp only at m2
+            rw [m2]
+        · simp [hn]
+    | noDialers => rfl
+    | outOfRange => rfl
+    | unsupported => rfl
+
 end DaeVerif.C15
